@@ -206,6 +206,8 @@ ALL_MENU = "{1, 2, 3, 4, 5, 6, 7, 8, 9, 10, 11}"
 NET_MENU_QUICK = net_mc([3, "{1, 3, 5, 6}", "{1, 2, 3, 5, 6, 8, 10}", "{1}", "FALSE", 0],
                         [3, "{1, 2, 3, 4, 5, 6, 7, 8}", ALL_MENU, "{1, 2}", "FALSE", 0])
 NET_FLAT = net_mc([2, "{1}", "{1}", "{1}", "FALSE", 40], [2, "{1}", "{1}", "{1}", "FALSE", 100])
+# convolutions whose padded inputs have the same size but different borders, back to back (1 x 5 x 5 input)
+NET_PAD = net_mc([3, "{9}", "{12, 13, 4}", "{1}", "FALSE", 0], [4, "{9}", "{12, 13, 4, 5}", "{1, 2}", "FALSE", 0])
 # network-level finite-difference theorem in TLC (depth 2)
 NET_FD = net_mc([2, "{1, 5}", "{1, 2, 4, 5, 6, 8, 10}", "{1}", "TRUE", 0], [2, "{1, 3, 5, 6}", ALL_MENU, "{1, 2}", "TRUE", 0])
 
@@ -230,7 +232,9 @@ PROPS["C08"] = {
     "assumptions": COMMON_ASSUMPTIONS + ["announced shapes are read from the `in -> out` line of each layer in the network's Display output"],
 }
 PROPS["C02"]["mc"].append(NET_MENU_QUICK)
+PROPS["C02"]["mc"].append(NET_PAD)
 PROPS["C01"]["mc"].append(NET_MENU_QUICK)
+PROPS["C01"]["mc"].append(NET_PAD)
 PROPS["C01"]["mc"].append(NET_FD)
 
 def flow_mc(mode, quick, thorough):
